@@ -441,3 +441,27 @@ def _reuse_group_translate(repo, ob, failure):
         if m and m.group(1) != want:
             return {"input": doc, "observed": 'transform="%s"' % m.group(1), "expected": 'transform="%s"' % want}
     return None
+
+
+@generator("panic_free@eval_function")
+@generator("C14.fn.")
+def _function_edges(repo, ob, failure):
+    """edge-case calls of the built-in functions: an error value or a result, never a panic; and
+    a few documented values"""
+    calls = ["select(2, 5, 6)", "select(3, 5, 6)", "select(1, 5, 6)", "select(0, 5)", "select(1, 5)", "head()", "tail()", "tail(1)", "head(1)",
+             "addv(1)", "addv()", "addv(1, 2, 3)", "subv(1)", "subv(1, 2, 3, 4)", "scalev(1)", "scalev(2, 3)", "in()", "in(1)", "in(1, 2, 1)",
+             "empty()", "count()", "clamp(1, 3, 2)", "clamp(5, 1, 3)", "sign(0 - 2)", "mix(1, 3, 0.5)", "lt(1, 2)", "ge(2, 2)", "not(0)", "and(1, 0)", "or(0, 0)"]
+    want = {"select(1, 5, 6)": "6", "select(0, 5)": "5", "head(1)": "1", "scalev(2, 3)": "6", "in(1, 2, 1)": "1", "in(1)": "0", "clamp(5, 1, 3)": "3",
+            "sign(0 - 2)": "-1", "mix(1, 3, 0.5)": "2", "lt(1, 2)": "1", "ge(2, 2)": "1", "not(0)": "1", "and(1, 0)": "0", "or(0, 0)": "0",
+            "subv(1, 2, 3, 4)": "-2, -2"}
+    for c in calls:
+        doc = '<svg><text xy="1" text="[{{%s}}]"/></svg>' % c
+        r = run_svgdx(repo, doc)
+        if r["timeout"] or r["rc"] not in (0, 1, 2) or "panicked" in r["err"]:
+            return {"input": doc, "observed": "exit %s: %s" % (r["rc"], " ".join(l for l in r["err"].split("\n") if "panicked" in l or "index out" in l)[:300]),
+                    "expected": "a value or an error, never a panic"}
+        if r["rc"] == 0 and c in want and ("[%s]" % want[c]) not in r["out"]:
+            import re as _re
+            m = _re.search(r"\[([^\]]*)\]</text>", r["out"])
+            return {"input": doc, "observed": m.group(1) if m else r["out"][-200:], "expected": want[c]}
+    return None
